@@ -36,9 +36,19 @@ HEADER_ORDER = ('varinfo', 'nnodes', 'nvars', 'nsuppvars', 'orderedvarnames', 's
 # one piece of data -> text file / abstract encoding
 # ---------------------------------------------------------------------------
 
-def render_text(F, ver='DDDMP-2.0'):
-    """The text-mode DDDMP file with the content `F`."""
-    out = [f'.ver {ver}', '.mode A']
+def render_text(F):
+    """The text-mode DDDMP file with the content `F`.  Optional keys: `ver` (text after `.ver`,
+    default `DDDMP-2.0`; None = no line), `mode` (default `A`; None = no line), `add` (an `.add`
+    line), `dd` (a `.dd name` line), `rootnames` (refused by the parser)."""
+    out = []
+    if F.get('ver', 'DDDMP-2.0') is not None:
+        out.append('.ver ' + F.get('ver', 'DDDMP-2.0'))
+    if F.get('add'):
+        out.append('.add')
+    if F.get('mode', 'A') is not None:
+        out.append('.mode ' + F.get('mode', 'A'))
+    if F.get('dd') is not None:
+        out.append('.dd ' + F['dd'])
     for k in HEADER_ORDER:
         if k not in F:
             continue
@@ -47,6 +57,8 @@ def render_text(F, ver='DDDMP-2.0'):
             out.append(f'.{k} ' + ' '.join(str(x) for x in v))
         else:
             out.append(f'.{k} {v}')
+    if F.get('rootnames') is not None:
+        out.append('.rootnames ' + ' '.join(F['rootnames']))
     out.append('.nodes')
     for u, info, index, v, w in F['nodes']:
         out.append(f'{u} {info} {index} {v} {w}')
@@ -66,6 +78,15 @@ def encode(F):
         else:
             fields.append(f'{k}={v}')
     fields.append('nodes=' + ';'.join(':'.join(str(x) for x in n) for n in F['nodes']))
+    # header lines the loader never reads (the refused ones exist at the text level only)
+    if F.get('add'):
+        fields.append('add=1')
+    if F.get('dd') is not None:
+        fields.append('dd=' + F['dd'])
+    if F.get('mode', 'A') is not None:
+        fields.append('mode=' + F.get('mode', 'A'))
+    if F.get('ver', 'DDDMP-2.0') is not None:
+        fields.append('ver=' + F.get('ver', 'DDDMP-2.0'))
     if 'text' in F:
         fields.append('text=' + F['text'])
     return fields
@@ -85,8 +106,14 @@ def decode(fields):
             F[k] = [_tok(x) for x in v.split(',')] if v else []
         elif k == 'nodes':
             F[k] = [tuple(_tok(x) for x in n.split(':')) for n in v.split(';')] if v else []
-        elif k == 'text':
+        elif k in ('text', 'dd'):
             F[k] = v
+        elif k == 'add':
+            F[k] = (v == '1')
+        elif k in ('mode', 'ver'):
+            F[k] = v
+    F.setdefault('mode', None)
+    F.setdefault('ver', None)
     return F
 
 
@@ -141,14 +168,34 @@ def _eval_op(impl, mid, args):
     tabs = file_tables(F, masks, full)
     out = [f'{n[0]}:{tabs[n[0]]}' for n in F['nodes']]
     out += [f'r{r}:{root_table(tabs, full, r)}' for r in F['rootids']]
-    if 'orderedvarnames' in F or 'suppvarnames' in F:
-        # the model also prints `evalFormat` (theorems `C16_format`, `C16_varinfo*`): the reading rule
-        # of the format on the header lines, which is what `file_tables` implements
-        out += [f'F{n[0]}:{tabs[n[0]]}' for n in F['nodes']]
-        out += [f'Fr{r}:{root_table(tabs, full, r)}' for r in F['rootids']]
+    # the model also prints `evalFormat` (theorems `C16_format`, `C16_varinfo*`): the reading rule
+    # of the format on the header lines, which is what `file_tables` implements (files without
+    # names: the variable is known by its index `ids[j]`; the generated ones are coherent, i.e.
+    # the loader's invented name `permids[permids[j]]` is that index: `C16_nameless_by_index`)
+    out += [f'F{n[0]}:{tabs[n[0]]}' for n in F['nodes']]
+    out += [f'Fr{r}:{root_table(tabs, full, r)}' for r in F['rootids']]
     return ';'.join(out)
 
 
+def _text_op(impl, mid, args):
+    """`<mid> dddmp_text <hex>`: `dd.dddmp.load` on a file with exactly these bytes."""
+    import dd.dddmp as _dddmp
+    os.makedirs(SCRATCH, exist_ok=True)
+    path = os.path.join(SCRATCH, f't{os.getpid()}.dddmp')
+    with open(path, 'wb') as f:
+        f.write(bytes.fromhex(args[0]))
+    impl.mgrs.pop(mid, None)
+    b = _dddmp.load(path)
+    impl.mgrs[mid] = b
+    return ','.join(str(r) for r in sorted(b.roots))
+
+
+def load_text(s, text, mid=0):
+    """Run `dddmp_text` on the ASCII text `text`; returns the answer."""
+    return s._do('\t'.join([str(mid), 'dddmp_text', text.encode('ascii').hex()]))
+
+
+implmod.EXT_LINE_OPS['dddmp_text'] = _text_op
 implmod.EXT_LINE_OPS['dddmp_load'] = _load_op
 implmod.EXT_LINE_OPS['dddmp_eval'] = _eval_op
 
@@ -307,6 +354,15 @@ def make_file(rng, dg, roots, numbering, opts):
         rng.shuffle(lines)
     F['nodes'] = lines
     F['nnodes'] = len(lines)
+    # header lines the loader ignores (`C16_header_ignored`): `.add`, `.dd`, `.ver` texts, no `.ver` / `.mode`
+    if opts.get('add'):
+        F['add'] = True
+    if opts.get('dd') is not None:
+        F['dd'] = opts['dd']
+    if 'ver' in opts:
+        F['ver'] = opts['ver']
+    if 'mode' in opts:
+        F['mode'] = opts['mode']
     name_of = {v: (vid[v] if nameless else v) for v in lv}
     return F, name_of
 
@@ -379,6 +435,182 @@ def root_table(tables, full, r):
 
 
 # ---------------------------------------------------------------------------
+# the text layer: header fields, line dispatch, lexical quirks (model: DD/DddmpText.lean)
+# ---------------------------------------------------------------------------
+
+def base_text(y='y', extra_header=(), mode='A', ver='DDDMP-2.0', varinfo=3):
+    """A small valid `.varinfo 3` file: `x` (level 0), the variable `y` (level 1),
+    root 3 = ite(x, TRUE, y)."""
+    lab = {3: ('x', y), 0: ('0', '1'), 1: ('0', '1')}[varinfo]
+    lines = []
+    if ver is not None:
+        lines.append(f'.ver {ver}')
+    if mode is not None:
+        lines.append(f'.mode {mode}')
+    lines += [f'.varinfo {varinfo}', '.nnodes 3', '.nvars 2', '.nsuppvars 2',
+              f'.orderedvarnames x {y}', f'.suppvarnames x {y}', '.ids 0 1', '.permids 0 1',
+              '.nroots 1', '.rootids 3']
+    lines += list(extra_header)
+    lines += ['.nodes', '1 T 1 0 0', f'2 {lab[1]} 1 1 -1', f'3 {lab[0]} 0 1 2', '.end']
+    return '\n'.join(lines) + '\n'
+
+
+ODD_VAR_NAMES = ['y.end', 'y.nodes', 'y.e', 'a.b', '.foo', "y'", 'y@2', '_y', 'T', 'y.', 'end', 'nodes',
+                 '.nodesX', 'x.ends', '7', '-7', 'Y_1.z']
+
+HEADER_PIECES = ['.add', '.dd foo', '.dd 5', '.rootnames f', '.rootnames f g 3', '.rootnames', '.mode A',
+                 '.mode B', '.mode C', '.mode', '.mode A A', '.ver DDDMP-2.0', '.ver x--2.-0', '.ver DDDMP-2',
+                 '.ver DDDMP 2.0', '.auxids 4 5', '.auxids 4', '# a comment', '# .nodes in a comment',
+                 '#.end', '', '   ', '\t', '.nvars 2', '.nvars 3', '.nnodes 3 .nvars 2', '.ids 0', '1',
+                 '.ids 0\n 1', '.varinfo 3', '.varinfo - 3', '.varinfo -3', '.varinfo 1_0', '.foo', '.foo 3',
+                 '$', '.', '-', '..', '.5', '. ver', '.ver', 'x', '.permids 0 1 # tail', '.nsuppvars 2\r',
+                 '.suppvarnames x y .', '.rootnames f .', '.rootnames f $', '.rootnames f - x', '.rootnames f -',
+                 '.rootnames f .ids', '.rootnames f .ids 0 1 $', '.orderedvarnames x 1', '.end', 'a.nodes']
+
+BODY_PIECES = ['', ' ', '# comment', '1 T 1 0 0 ', '1 T 1 0', '1  T 1 0 0', '1\tT 1 0 0', '+1 T 1 0 0',
+               '01 T 1 0 0', '1_0 T 1 0 0', '1 T 1 0 0 0', '4 x 0 1 -1', '4 x.end 0 1 -1', '4 zz 0 1 -1',
+               '4 x 0 -1 1', '4 x 0 1 x', 'x x 0 1 1', '4 x x 1 1', '4 0 0 1 1', '4 +0 0 1 1', '.end',
+               '.endx', '4 x 0 1 1 .end', '.nodes', '1 T 1 0 0\r', '2 y 1 1 -1', '4 T 0 0 0', '-4 x 0 1 -1']
+
+
+def mutate_text(rng, text):
+    """One random edit of a file text, at the level of lines or of characters."""
+    lines = text.split('\n')
+    k = rng.randrange(9)
+    try:
+        i_nodes = lines.index('.nodes')
+    except ValueError:
+        i_nodes = len(lines)
+    if k == 0:      # a header piece somewhere in the header
+        lines.insert(rng.randrange(i_nodes + 1), rng.choice(HEADER_PIECES))
+    elif k == 1:    # a body piece somewhere in the body
+        lines.insert(rng.randrange(i_nodes, len(lines)) + 1 if i_nodes < len(lines) else len(lines),
+                     rng.choice(BODY_PIECES))
+    elif k == 2 and lines:    # drop a line
+        del lines[rng.randrange(len(lines))]
+    elif k == 3 and len(lines) > 1:   # swap two header lines
+        i, j = rng.randrange(max(i_nodes, 1)), rng.randrange(max(i_nodes, 1))
+        if i < len(lines) and j < len(lines):
+            lines[i], lines[j] = lines[j], lines[i]
+    elif k == 4 and lines:    # join a line with the next (lists may run over lines)
+        i = rng.randrange(len(lines))
+        if i + 1 < len(lines):
+            lines[i:i + 2] = [lines[i] + rng.choice([' ', '  ', '\t', '']) + lines[i + 1]]
+    elif k == 5 and lines:    # replace a line by a piece
+        i = rng.randrange(len(lines))
+        lines[i] = rng.choice(HEADER_PIECES if i < i_nodes else BODY_PIECES)
+    elif k == 6:    # rename the variable y
+        nm = rng.choice(ODD_VAR_NAMES)
+        lines = [re.sub(r'\by\b', lambda _m: nm, ln) for ln in lines]
+    elif k == 7:    # one character
+        t = '\n'.join(lines)
+        if t:
+            i = rng.randrange(len(t))
+            c = rng.choice(list(' \t\n\r.-#_@\'$0123456789aTxy:;,+') + ['\r\n', '\x0b', '\x1c'])
+            t = t[:i] + c + (t[i + 1:] if rng.random() < 0.5 else t[i:])
+        return t
+    else:           # line ends
+        return rng.choice(['\r\n', '\r']).join(lines)
+    return '\n'.join(lines)
+
+
+def text_case(ctx, s, text, label, expect_ok=None):
+    """Model and code on the text of a file: same answer, same state when a manager is returned."""
+    ans = load_text(s, text)
+    if ans.startswith('ok'):
+        s.state(0)
+        ctx.count('text:accepted')
+    else:
+        ctx.count('text:' + ans)
+    ctx.case(('text', text), nontrivial=True)
+    if expect_ok and not ans.startswith('ok'):
+        # a VALID file of the fixed list is refused
+        ctx.violation(f'text layer: {label}: load of a valid file raised: {ans}',
+                      dict(file=text, answer=ans,
+                           tags=dict(call='dddmp.load', symptom='raises', case=label)))
+    elif expect_ok is False and ans.startswith('ok'):
+        ctx.notes.append(f'text layer: {label}: expected a refusal, the file is accepted')
+    return ans
+
+
+def text_layer(ctx):
+    """Header fields the parser accepts / refuses, the substring dispatch of lines, lexical quirks:
+    exact correspondence of `loadDddmpText` (DD/DddmpText.lean) with `dd.dddmp.load` on the same
+    bytes."""
+    rng = ctx.rng
+    s = Session(ctx)
+    # (i) every header line the grammar knows, alone on top of a valid file
+    fixed = [('plain', base_text(), True), ('no-ver', base_text(ver=None), True),
+             ('no-mode', base_text(mode=None), True), ('mode-B', base_text(mode='B'), False),
+             ('mode-other', base_text(mode='C'), False), ('add', base_text(extra_header=['.add']), True),
+             ('dd', base_text(extra_header=['.dd foo']), True),
+             ('rootnames', base_text(extra_header=['.rootnames f']), False),
+             ('auxids', base_text(extra_header=['.auxids 7 9']), True),
+             ('auxids-short', base_text(extra_header=['.auxids 7']), False),
+             ('ver-odd', base_text(ver='x--2.-0'), True), ('ver-short', base_text(ver='DDDMP-2'), False),
+             ('comment-nodes', base_text(extra_header=['# the .nodes follow']), True),
+             ('indented-nodes-line', base_text().replace('.nodes', ' .nodes'), False),
+             ('nodes-line-with-tail', base_text().replace('.nodes', '.nodes 3 # here'), True),
+             ('end-line-with-tail', base_text().replace('.end', '.endx 1 2'), True),
+             ('empty', '', False), ('header-only', base_text().split('.nodes')[0], False),
+             ('no-end', base_text().replace('.end\n', ''), True),
+             ('after-end', base_text() + 'garbage here\n', True),
+             ('crlf', base_text().replace('\n', '\r\n'), True),
+             ('blank-body-line', base_text().replace('.end', '\n.end'), False),
+             ('rootnames-then-bad', base_text(extra_header=['.rootnames f .ids 0 1 $']), False),
+             ('rootnames-bad-lookahead', base_text(extra_header=['.rootnames f $']), False)]
+    for vi in (0, 1):
+        fixed.append((f'varinfo-{vi}', base_text(varinfo=vi), True))
+    # `.add` is accepted and never read: an ADD file (terminal lines `id T value 0 0`) is read as a BDD
+    add1 = base_text(extra_header=['.add']).replace('1 T 1 0 0', '1 T 7 0 0')
+    fixed.append(('add-file-one-terminal', add1, True))
+    fixed.append(('add-file-two-terminals',
+                  add1.replace('.nnodes 3', '.nnodes 4').replace('2 y 1 1 -1', '2 y 1 1 4\n4 T 3 0 0'), False))
+    fixed.append(('add-file-float', add1.replace('1 T 7 0 0', '1 T 0.5 0 0'), False))
+    for label, text, ok in fixed:
+        text_case(ctx, s, text, label, expect_ok=ok)
+        ctx.count('text-fixed:' + label)
+    # (ii) the name of the second variable (dotted names are NAME tokens of the lexer; before f9d6f33
+    # a name that CONTAINS `.end` / `.nodes` made the loader cut the file there: F23)
+    refused = []
+    for nm in ODD_VAR_NAMES:
+        for vi in (3, 0):
+            ans = text_case(ctx, s, base_text(y=nm, varinfo=vi), 'name ' + nm)
+            if not ans.startswith('ok'):
+                refused.append(f'{nm!r} (varinfo {vi}): {ans[4:]}')
+            ctx.count('text-name')
+    ctx.notes.append('files refused because of the NAME of a variable (`T` is the label of the terminal; '
+                     'names that contain `.end` / `.nodes` load since f9d6f33, finding F23): '
+                     + ('; '.join(refused) or 'none'))
+    ctx.add_session(s, SECTIONS_L3, 'text layer: fixed')
+    s.close()
+    # (iii) random edits of valid files (1-3 edits each)
+    n = 400 if ctx.tier == 'quick' else 6000
+    s = Session(ctx)
+    for k in range(n):
+        if ctx.time_left() < 6:
+            ctx.notes.append('time budget reached in the text fuzzer')
+            break
+        text = base_text(varinfo=rng.choice([3, 3, 0, 1]),
+                         extra_header=rng.sample(HEADER_PIECES[:4] + ['.auxids 1 2'], rng.randrange(2)))
+        for _ in range(rng.choice([1, 1, 2, 3])):
+            text = mutate_text(rng, text)
+        if any(ord(c) >= 128 for c in text):
+            continue
+        text_case(ctx, s, text, 'fuzz')
+        ctx.count('text-fuzz')
+        if k % 250 == 249:
+            ctx.add_session(s, SECTIONS_L3, 'text layer: fuzz')
+            s.close()
+            s = Session(ctx)
+    ctx.add_session(s, SECTIONS_L3, 'text layer: fuzz')
+    s.close()
+    tmp = os.path.join(SCRATCH, f't{os.getpid()}.dddmp')
+    if os.path.exists(tmp):
+        os.remove(tmp)
+
+
+# ---------------------------------------------------------------------------
 # the check
 # ---------------------------------------------------------------------------
 
@@ -398,7 +630,19 @@ def load_and_check(ctx, s, F, expect, names, label, extra_tags=None, chain=None)
     """Load `F` into manager 0 of session `s`; `expect` = set of truth tables (over the
     sorted `names`, by the names the manager must use) of the file's root entries, or None
     when only the correspondence with the model is wanted."""
+    # the same file through the TEXT layer of the model (lexer, grammar, line dispatch) ...
+    if 'text' in F:
+        with open(F['text'], 'rb') as fh:
+            raw = fh.read()
+        anst = s._do('\t'.join(['0', 'dddmp_text', raw.hex()])) if all(c < 128 for c in raw) else None
+    else:
+        anst = load_text(s, render_text(F))
+    if anst is not None and anst.startswith('ok'):
+        s.state(0)
+    # ... and as abstract content
     ans = s._do('\t'.join(['0', 'dddmp_load'] + encode(F)))
+    if anst is not None and anst != ans:
+        raise RuntimeError(f'harness: text and abstract encodings of one file disagree: {anst} / {ans}')
     if not ans.startswith('ok'):
         if expect is not None:
             ctx.violation(f'{label}: load of a well-formed file raised: {ans}',
@@ -584,6 +828,13 @@ def random_opts(rng, k):
     o['ids_identity'] = rng.random() < 0.3
     if not o['names'] and not o['ordered']:
         o['nameless_perm'] = rng.choice(['identity', 'involution'])
+    o['add'] = rng.random() < 0.25
+    if rng.random() < 0.25:
+        o['dd'] = rng.choice(['f', 'out.bdd', '_d@1', "g'"])
+    if rng.random() < 0.3:
+        o['ver'] = rng.choice([None, 'DDDMP-2.0', 'DDDMP-1.0', 'x--2.-0', 'v-10.3'])
+    if rng.random() < 0.2:
+        o['mode'] = None
     return o
 
 
@@ -598,8 +849,23 @@ def check_C16(ctx):
     _build_driver(ctx)
     quick = ctx.tier == 'quick'
     ctx.notes.append('bdd.roots is a set: root entries and returned roots are compared as sets of functions')
-    # 0. the minimal reproduction of finding F1 (roots stored untranslated; repaired in /repo)
-    #    kept as a fixed case that runs first (regression corpus)
+    # 0. regression corpus, run first.  F23 (repaired in f9d6f33): a valid `.varinfo 3` file whose
+    #    variable is called `y.end` / `y.nodes` (dots are legal in NAME tokens; dd.cudd writes the
+    #    names of its variables verbatim) was refused with AssertionError / TypeError because the
+    #    loader cut the file at the first line that CONTAINED `.end` / `.nodes`
+    s = Session(ctx)
+    for nm in ('y.end', 'y.nodes', 'x.nodes.end'):
+        F = dict(varinfo=3, nnodes=3, nvars=2, nsuppvars=2, orderedvarnames=['x', nm],
+                 suppvarnames=['x', nm], ids=[0, 1], permids=[0, 1], nroots=2, rootids=[3, -2],
+                 nodes=[(1, 'T', 1, 0, 0), (2, nm, 1, 1, -1), (3, 'x', 0, 1, 2)])
+        sp = Space(['x', nm])
+        tabs = file_tables(F, sp.masks, sp.full)
+        load_and_check(ctx, s, F, {root_table(tabs, sp.full, r) for r in F['rootids']}, sp.names,
+                       'corpus-F23', extra_tags=dict(name=nm), chain='hold')
+        ctx.case('corpus-F23 ' + nm)
+    ctx.add_session(s, SECTIONS_L3, 'corpus-F23')
+    s.close()
+    # the minimal reproduction of finding F1 (roots stored untranslated; repaired in /repo)
     s = Session(ctx)
     F = dict(varinfo=0, nnodes=3, nvars=2, nsuppvars=2, suppvarnames=['a', 'b'],
              orderedvarnames=['a', 'b'], ids=[0, 1], permids=[0, 1], nroots=2, rootids=[2, -3],
@@ -703,6 +969,8 @@ def check_C16(ctx):
             s.close()
     # 3. files outside the well-formed domain: model and code must agree (answers only)
     malformed(ctx)
+    # 4. the text layer
+    text_layer(ctx)
     ctx.exhaustive = False
     tmp = os.path.join(SCRATCH, f'f{os.getpid()}.dddmp')
     if os.path.exists(tmp):
@@ -803,5 +1071,8 @@ REGISTRY = {
             'every node/root and compared with the harness evaluator; every 3rd case goes on using the '
             'loaded manager (incref roots, and of two roots, exist, collect_garbage: results against '
             'the file tables, exact counts for the ledger), every 7th collects at once (nothing held: '
-            'no node survives); exact-state correspondence throughout'),
+            'no node survives); every file is loaded from its TEXT by the model too (loadDddmpText: line dispatch, header lexer, '
+            'grammar with actions, node lines) and the two encodings must agree; generated files carry .add / .dd / odd or absent '
+            '.ver / absent .mode; text layer: every header line of the grammar on a valid file, 17 odd variable names (y.end, '
+            'y.nodes, .foo, ...) in modes 3 and 0, 400 (thorough 6000) random edits of valid texts; exact-state correspondence throughout'),
 }
